@@ -129,20 +129,41 @@ def _crosscheck(fn, hist_var="hist", extra_vars=("cfg",), count=40):
             raise Machinery("sync_paths: fast dump parser disagrees with tlaval on state %d of %s" % (i + 1, fn))
 
 
+def gen_dump(ctx, module, cfg, overrides, label, timeout=None, spec_dir="sync", workers=None):
+    """TLC path enumeration of `module` under `cfg` (+overrides) with -dump; returns (TLCResult, dump file)."""
+    spec_dir = os.path.join(VERIF, "specs", spec_dir)
+    cfgp = make_cfg(os.path.join(spec_dir, cfg), overrides or {}, ctx.scratch,
+                    "%s_%s_%s" % (module, label, os.path.basename(cfg)))
+    dump = os.path.join(ctx.scratch, "%s_%s" % (module, label))
+    r = tlc.run(spec_dir, module, cfgp, timeout=timeout or ctx.pick(900, 3000), dump=dump, workers=workers)
+    if not r.ok:
+        raise Machinery("generation spec reported %s" % r.violation)
+    return r, dump + ".dump"
+
+
+def stream_replay_many(ctx, module, cfg, families, replayer, nontrivial=None, timeout=None, parallel=3):
+    """families: [(label, overrides)].  The TLC enumerations run concurrently (`parallel` JVMs at a time,
+    the workers shared between them), the replays one after the other."""
+    from concurrent.futures import ThreadPoolExecutor
+    nproc = int(os.environ.get("VERIF_WORKERS", "16"))
+    par = max(1, min(parallel, len(families)))
+    w = max(2, nproc // par)
+    with ThreadPoolExecutor(par) as ex:
+        futs = [ex.submit(gen_dump, ctx, module, cfg, ov, label, timeout, "sync", w) for label, ov in families]
+        total = 0
+        for (label, ov), f in zip(families, futs):
+            r, fn = f.result()
+            total += stream_replay(ctx, module, cfg, ov, replayer, label=label, nontrivial=nontrivial, dumped=(r, fn))
+    return total
+
+
 def stream_replay(ctx, module, cfg, overrides, replayer, label="s2c", nontrivial=None, timeout=None,
-                  spec_dir="sync"):
+                  spec_dir="sync", dumped=None):
     """TLC path enumeration of `module` under `cfg` (+overrides) replayed into the real code.
     Returns the number of behaviours replayed.  Divergences go through ctx.violation with the same
     record shape as ctx.replay ({extra, path, divergence})."""
     global _REPLAYER, _NONTRIVIAL
-    spec_dir = os.path.join(VERIF, "specs", spec_dir)
-    cfgp = make_cfg(os.path.join(spec_dir, cfg), overrides or {}, ctx.scratch,
-                    "%s_%s_%s" % (module, label, os.path.basename(cfg)))
-    dump = os.path.join(ctx.scratch, "%s_%s_%d" % (module, label, len(os.listdir(ctx.scratch))))
-    r = tlc.run(spec_dir, module, cfgp, timeout=timeout or ctx.pick(900, 3000), dump=dump)
-    if not r.ok:
-        raise Machinery("generation spec reported %s" % r.violation)
-    fn = dump + ".dump"
+    r, fn = dumped or gen_dump(ctx, module, cfg, overrides, label, timeout, spec_dir)
     ctx.cov["checker_cmd"].append("tlc -dump -config %s %s" % (cfg, module))
     _crosscheck(fn)
     nproc = int(os.environ.get("VERIF_WORKERS", "16"))
